@@ -14,7 +14,36 @@ TRUSTED_BASE = [
 ASSUMPTIONS = ["Server::drop(addr) is the application's own act of ending the connection and produces no event by design: the monitor treats the call as the terminal marker of that epoch"]
 RULE = ("1-4 clients against one server over relays with loss/dup/reorder/delay of every datagram; random send/disconnect/disconnect_now/drop calls on both sides incl. both "
         "sides at once, timeouts racing disconnects, late and duplicated handshake and disconnect frames, step cadences 5 ms..2 s; monitor automaton per connection on "
-        "both endpoints' event iterators. Non-trivial: at least one Connect and one terminal event. Distinct by (calls made, event shapes).")
+        "both endpoints' event iterators; plus a peer reconnecting from the same address while the server's entry for its previous connection is pending / active / closing / closed / gone. Non-trivial: at least one Connect and one terminal event. Distinct by (calls made, event shapes).")
+
+def reconnect_scenario(r, it, tier):
+    """a peer that comes back from the SAME address (restarted process, NAT keeping its mapping) while the server's entry
+    for its previous connection is pending, active, closing, closed or gone: a new Connect for the address only after the
+    terminal event of the previous connection."""
+    sim = E.EpSim(r, inter=it)
+    sim.srv(8, 8, r.pick([0, 1]), dict(E.DEFAULT_EP))
+    lat = r.pick([0, 5_000_000])
+    nets = {"c2s": E.Net(latency=lat), "s2c": E.Net(latency=lat)}
+    sim.nets = nets
+    dt = r.pick([20_000_000, 100_000_000, 500_000_000])
+    sim.cli(0, dict(E.DEFAULT_EP), nets)
+    sim.run(r.range(3, 12), dt, nets)
+    for round_ in range(r.range(1, 3)):
+        how = r.pick(["sdiscnow", "sdisc", "sdiscnow", "cdiscnow", "vanish", "sdrop", "early"])
+        if how == "early":
+            pass                                   # reconnect while the previous connection is still up (or still handshaking)
+        elif how == "vanish":
+            pass                                   # the old client just stops (its process died); nothing is sent
+        else:
+            sim.call(how, 0)
+        silent = how in ("sdiscnow", "sdisc", "vanish") and r.chance(2, 3)
+        if silent:                                 # the old client never answers again
+            nets[(0, "s2c")] = E.Net(loss=1000)
+        sim.run(r.pick([0, 1, 3, int(3_000_000_000 // dt) + 1, int(25_000_000_000 // dt) + 1]), dt, nets)
+        nets.pop((0, "s2c"), None)
+        sim.recli(0, dict(E.DEFAULT_EP), nets)
+        sim.run(r.range(5, 30), dt, nets)
+    return sim
 
 def streams(rng, tier, ctx):
     n = 24 if tier == "quick" else 400
@@ -24,7 +53,9 @@ def streams(rng, tier, ctx):
         for i in range(n):
             r = rng.fork()
             it.op("=== gen%d" % i)
-            if i % 4 == 1:
+            if i % 4 == 3:
+                sim = reconnect_scenario(r, it, tier)
+            elif i % 4 == 1:
                 sim = E.general_scenario(r, it, tier, crossing=True, lossy=(i % 8 == 1), variants=False, dt_choices=(5_000_000, 20_000_000), n_clients=r.range(1, 3), limits=(8, 8))
             else:
                 sim = E.general_scenario(r, it, tier, forge=(i % 3 == 0), codec=codec, variants=(i % 2 == 0))
@@ -46,8 +77,9 @@ def monitor(events, who, server=False):
     for (t, tag) in events:
         ms = t // 10**6
         if tag == "syn":
-            if not conn:
-                attempts += 1
+            # counted also while a connection is established: the same step() may end that connection before it
+            # reads this SYN (lenient, never over-demanding; a Connect while `conn` is still an error below)
+            attempts += 1
         elif tag == "C":
             if conn:
                 return "%s: Connect while a connection is established (t=%d ms)" % (who, ms)
@@ -77,7 +109,7 @@ def oracle(stream, cid, ops, outs):
     sev, cev, log, delivered, calls = E.replay(ops, outs)
     # client side: one connection per client object
     for i, evs in cev.items():
-        m = monitor([(t, tag) for (t, tag, _) in evs], "client %d" % i)
+        m = monitor([(t, tag) for (t, tag, _) in evs], "client %s" % i)
         if m:
             fails.append({"oracle": "event_grammar", "detail": m, "signature": {"oracle": "event_grammar", "side": "client"}})
     # server side per address, with drop calls interleaved as terminal markers
